@@ -87,10 +87,18 @@ var c12Ints = func() []string {
 		v, _ := new(big.Int).SetString(s, 10)
 		add(v)
 	}
+	// magnitudes of two to seven machine words, on both sides of every word boundary (a key of each word
+	// count may be remembered in its own way)
+	for _, bits := range []uint{127, 128, 191, 192, 193, 255, 256, 320, 400} {
+		v := new(big.Int).Lsh(big.NewInt(1), bits)
+		add(new(big.Int).Sub(v, big.NewInt(1)))
+		add(v)
+		add(new(big.Int).Add(v, big.NewInt(5)))
+	}
 	return out
 }()
 
-var c12Texts = [][]byte{[]byte(""), []byte("a"), []byte("é"), []byte("b c"), []byte("a-long-key-of-more-than-fifteen-bytes"), []byte("中文")}
+var c12Texts = [][]byte{[]byte(""), []byte("a"), []byte("é"), []byte("b c"), []byte("a-long-key-of-more-than-fifteen-bytes"), []byte("中文"), []byte("aaaaaaaaaaaaaaaa")}
 
 func init() {
 	// strings that spell a time key exactly as the library prints it: a string and a time are different values
@@ -99,7 +107,8 @@ func init() {
 	}
 }
 
-var c12UIDs = [][]byte{make([]byte, 16), {1, 2, 3, 4, 5, 6, 7, 8, 9, 10, 11, 12, 13, 14, 15, 16}}
+// the third UID has the bytes of the string key "aaaaaaaaaaaaaaaa" (c12Texts): a UID and a string are different values
+var c12UIDs = [][]byte{make([]byte, 16), {1, 2, 3, 4, 5, 6, 7, 8, 9, 10, 11, 12, 13, 14, 15, 16}, []byte("aaaaaaaaaaaaaaaa")}
 
 func genC12Key(t *rapid.T, via string) C12Key {
 	var k C12Key
@@ -116,7 +125,7 @@ func genC12Key(t *rapid.T, via string) C12Key {
 	case 8:
 		if rapid.Bool().Draw(t, "uidOrBool") {
 			k.Class = "uid"
-			k.Text = c12UIDs[rapid.IntRange(0, 1).Draw(t, "uid")]
+			k.Text = c12UIDs[rapid.IntRange(0, len(c12UIDs)-1).Draw(t, "uid")]
 		} else {
 			k.Class = "bool"
 			k.Bool = rapid.Bool().Draw(t, "bool")
